@@ -104,7 +104,22 @@ class Program:
         self.modules: Dict[str, Module] = {}
         self.classes: Dict[str, ClassInfo] = {}
         self.parsed_files: List[str] = []
-        for name, rel in MODULE_FILES.items():
+        files = dict(MODULE_FILES)
+        # every other module of the package is covered as well (new modules, moved helpers)
+        src_root = os.path.join(self.root, "src")
+        if os.path.isdir(src_root):
+            for dirpath, dirs, fnames in os.walk(os.path.join(src_root, "quantity")):
+                for fn in sorted(fnames):
+                    if not fn.endswith(".py") or fn == "version.py":
+                        continue
+                    rel = os.path.relpath(os.path.join(dirpath, fn), self.root)
+                    if rel in files.values():
+                        continue
+                    mod = os.path.relpath(os.path.join(dirpath, fn), src_root)[:-3].replace(os.sep, ".")
+                    if mod.endswith(".__init__"):
+                        mod = mod[: -len(".__init__")]
+                    files[mod] = rel
+        for name, rel in files.items():
             if only and name not in only:
                 continue
             path = os.path.join(self.root, rel)
@@ -254,6 +269,8 @@ class Program:
             elif isinstance(st, ast.AnnAssign):
                 if isinstance(st.target, ast.Name) and st.value is not None:
                     ci.attrs[st.target.id] = st.value
+        ci.fields = [st.target.id for st in node.body
+                     if isinstance(st, ast.AnnAssign) and isinstance(st.target, ast.Name)]
         if "total_ordering" in ci.decorators:
             self._synthesize_total_ordering(ci, m)
         return ci
